@@ -118,35 +118,38 @@ def _strip_c(cap, rec, chk, n0, n1):
     return out.getvalue() == plain and nbytes == len(plain)
 
 
-def sized_reads_and_skips_q(cap: int, tif: bool, j: int, k1: int, s1: int, k2: int, s2: int) -> bool:
+def sized_reads_and_skips_q(cap: int, tif: bool, j: int, k1: int, s1: int, k2: int, s2: int, jump: int = 0) -> bool:
     """
     pre: 2 <= cap <= 3 and 0 <= j <= 1
     pre: 0 <= k1 <= 1 and 0 <= k2 <= 1 and 0 <= s1 <= 5 and 0 <= s2 <= 4
     pre: PART < 0 or (8 if tif else 0) + (cap - 2) * 4 + j * 2 + k1 == PART
+    pre: 0 <= jump <= 2
     post: _
     """
-    return _sized(cap, tif, j, k1, s1, k2, s2)
+    return _sized(cap, tif, j, k1, s1, k2, s2, jump)
 
 
-def sized_reads_and_skips(cap: int, tif: bool, j: int, k1: int, s1: int, k2: int, s2: int) -> bool:
+def sized_reads_and_skips(cap: int, tif: bool, j: int, k1: int, s1: int, k2: int, s2: int, jump: int = 0) -> bool:
     """
     pre: 2 <= cap <= 3 and 0 <= j <= 1
     pre: 0 <= k1 <= 1 and 0 <= k2 <= 1 and 0 <= s1 <= 6 and 0 <= s2 <= 6
     pre: PART < 0 or (8 if tif else 0) + (cap - 2) * 4 + j * 2 + k1 == PART
+    pre: 0 <= jump <= 2
     post: _
     """
-    return _sized(cap, tif, j, k1, s1, k2, s2)
+    return _sized(cap, tif, j, k1, s1, k2, s2, jump)
 
 
-def _sized(cap, tif, j, k1, s1, k2, s2):
+def _sized(cap, tif, j, k1, s1, k2, s2, jump=0):
     # symbolic read sizes make the file object return symbolic-LENGTH byte strings, which the solver's sequence theory does not get
     # through (every path timed out when probed); the sizes are therefore realized first - the path tree still covers every size
     cap, tif, j, k1, k2, s1, s2 = mark.pick(cap, 2, 3), mark.pickb(tif), mark.pick(j, 0, 1), mark.pick(k1, 0, 1), mark.pick(k2, 0, 1), mark.pick(s1, 0, 6), mark.pick(s2, 0, 6)
+    jump = mark.pick(jump, 0, 2)
     with mark.untraced():
-        return _sized_c(cap, tif, j, k1, s1, k2, s2)
+        return _sized_c(cap, tif, j, k1, s1, k2, s2, jump)
 
 
-def _sized_c(cap, tif, j, k1, s1, k2, s2):
+def _sized_c(cap, tif, j, k1, s1, k2, s2, jump=0):
     lrs = [_lr(0, 5, 1), _lr(1, 4, 2)]
     data, pos = _write(cap, True, False, False, tif, lrs)
     r = File.FileRead(SymFile(data), 'r', False)
@@ -174,6 +177,17 @@ def _sized_c(cap, tif, j, k1, s1, k2, s2):
         o += take
         if r.tellLr() != pos[j]:
             return False
+    if jump:
+        # leave the record where the sized reads stopped (possibly inside a non-final physical record) and seek to the reported start of
+        # the other (jump 1) or the same (jump 2) logical record: position, start flag and content are those of that record
+        j2 = 1 - j if jump == 1 else j
+        r.seekLr(pos[j2])
+        if r.readLrBytes(1) != lrs[j2][:1]:
+            return False
+        if r.tellLr() != pos[j2]:
+            return False
+        r.seekCurrentLrStart()
+        return r.readLrBytes() == lrs[j2]
     # the rest of the record
     rest = r.readLrBytes()
     if o == len(lr):
